@@ -9,6 +9,34 @@ BASELINE = "cd /repo && /venv/bin/python -m pytest -ra -q -p no:cacheprovider --
 
 # pid -> (category, technique, text, level_note, design_ref)
 P = {
+    "C01": (
+        "model_checking",
+        "complete enumeration of stated finite spaces through the real assemble -> as_bytes -> from_bytes -> as_bytes path; slot-type / sync placement re-derived independently",
+        "16 colour codes x 4 data syncs x every supported payload kind (48 kind/data-type combinations) x base payloads as a full product; every kind x every field x the field's whole alphabet; all info vectors of weight <= 1 (2) and complements through BPTC / trellis / rate-1 inside a burst; voice bursts: 4 voice syncs x all vocoder vectors of weight <= 1 (2) + complements, and all 128 (cc, PI, LCSS) x 68 embedded-32 vectors x vocoder fills. Parsed data type, colour code, class, payload bits and every field must equal what was assembled; the second as_bytes must give the same 33 bytes; voice bursts must survive bit for bit.",
+        "Bound: payload values per field alphabet (all values for <= 8-bit fields), not all 2^216 vocoder payloads (weight <= 2 + complements; the splice is position-local). Trusted: C03's ETSI layouts, polynomial Golay / QR references, sync table 9.2 transcribed in the harness.",
+        "DESIGN.md §3 C01, §9.2",
+    ),
+    "C03": (
+        "model_checking",
+        "complete enumeration: all 2^w values of 30 element enumerations, bounded-exhaustive field products of every PDU kind against bit-level ETSI layouts, all 2^25 + 2^24 GPS codes (thorough), arbitrary bit strings of weight <= 1 (2) from every opcode prefix",
+        "Elements are total over their width; every PDU kind (9 CSBK opcodes, 5 data-header formats, 7 full-LC opcodes in 96- and 77-bit form, 2 short LCs, PI header, 12 rate-data variants, 8 UDP/IPv4 header variants) is built from fields, compared bit by bit with the harness's own layout tables (CRC positions masked), decoded, read back field by field, re-encoded, and round-tripped through the bytes interface; arbitrary right-length strings must raise a documented error or be a fixed point of decode-encode.",
+        "Bound: fields wider than 8 bits at boundary + walking values; all one- and two-field variations of 2-4 bases, full product where <= 6,000 (60,000) cases. Trusted: the harness's transcription of the ETSI PDU layouts.",
+        "DESIGN.md §3 C03",
+    ),
+    "C04": (
+        "model_checking",
+        "exhaustive enumeration of all 2^20 slot-type and all 2^16 EMB words vs. polynomial reference codes + complete fault enumeration (all error patterns of weight <= 2 (3) and all bursts up to the check width over every bit) on CRC-protected PDUs",
+        "Indicator == codeword membership for every received slot-type / EMB word; every library-encoded PDU with a check field parses with indicator true (also recomputed with the harness's GF(2) division); for base PDUs of every CRC-protected kind every low-weight / burst corruption that is not a multiple of the generator must be rejected or leave all fields unchanged; all 512 CRC-9 residues x CRC-32 single-bit cases for last blocks; HRNP single-word errors.",
+        "Bound: error weight <= 2 quick / 3 thorough, bursts <= 9-10 quick / 16 thorough, fixed base PDUs. Trusted: harness GF(2) long division, ETSI polynomials and masks.",
+        "DESIGN.md §3 C04",
+    ),
+    "C07": (
+        "model_checking",
+        "complete enumeration of a bounded configuration space through the real generator -> bytes -> parser -> tracker pipeline with the fragmentation arithmetic, CRC-32 and count-down recomputed in the harness",
+        "Every payload length 0..100 (thorough 0..1500) x 3 rates x confirmed/unconfirmed, plus block-boundary lengths x preamble counts {0,2,3,16} (0..16) x colour codes x fills: exactly one started + one data-ended, handed-over blocks = preambles + header + N data blocks, data == payload + announced pad, CRC-32 of the last block recomputed by polynomial division, every confirmed block crc9_ok, preamble blocks-to-follow counting down to header + blocks, tracker idle afterwards.",
+        "Bound: payload contents from 4 fills; configurations needing > 127 blocks are not representable. Trusted: table 8.1 transcription, GF(2) CRC-32 reference.",
+        "DESIGN.md §3 C07",
+    ),
     "C05": (
         "model_checking",
         "complete enumeration of bounded bit-string / octet-string / error-pattern spaces on the real CRC engines and front ends vs. integer polynomial long division",
